@@ -8,14 +8,23 @@
                              uses ([path = []] is what  to_stream(int)  builds:  Generator(MT19937(root)) );
        KAmbient off        : the process-global  np.random  (what to_stream(None) returns) - NOT determined
                              by settings and seeds.
-   * execute_simulation (single setting): ONE seed_or_generator object is handed to each of the n_rep
-     repetitions of a sequential loop; to_stream turns an int into a NEW generator at every use.
+   * execute_simulation (single setting): the seed_or_generator argument is turned into ONE stream (to_stream, once,
+     before the loop) which is threaded through the n_rep repetitions of a sequential loop
+     (repair c15-execute-simulation-int-seed-stream; before it ONE int was handed to every repetition and to_stream
+     turned it into a NEW generator at every use: [single_key_before_fix]).
    * the flow entry point: SeedSequence(seed_qoperation).spawn(n_sample) -> one generator per sample, used in turn
      by the generation settings of the true object and the testers; SeedSequence(seed_data).spawn(n_rep)
      (a fresh SeedSequence inside every sample unit) -> one generator per repetition; four nested
      joblib.Parallel levels whose results come back in submission order.
-   * whether the sample's generator is passed to the generation settings is decided from the signature of the
-     TRUE object's  generate  alone (execute_simulation_sample_unit). *)
+   * the sample's generator is passed to exactly those generation settings whose  generate  takes one
+     (repair c15-flow-generation-stream-per-setting; before it this was decided from the signature of the TRUE
+     object's  generate  alone: [qop_key_before_fix]).
+   * execute_estimation hands every repetition's task its own deep copy of estimator / loss / algo
+     (repair c15-execute-estimation-private-copies: [run_private]; before it all tasks received the SAME objects:
+     [run_shared_before_fix_before_fix]).
+
+   Definitions named  *_before_fix  describe the code AS CODED BEFORE the named repair; they are kept so that the
+   harness can recognise (and name) the old behaviour if it ever returns, and for the  _refuted  theorems. *)
 From Coq Require Import List Arith Bool ZArith.
 Import ListNotations.
 
@@ -34,11 +43,11 @@ Definition resolve_seed (arg : seedarg) (seed_data : option Z) : seedarg :=
   | a => a
   end.
 
-(* the stream repetition [rep] draws from.  The loop is sequential, a Generator object (or np.random) is
-   threaded through the repetitions; an int is turned into a fresh generator by to_stream in EVERY repetition. *)
+(* the stream repetition [rep] draws from.  to_stream is applied ONCE before the (sequential) loop, the resulting
+   Generator object (or np.random) is threaded through the repetitions. *)
 Definition single_key (s : seedarg) (rep : nat) : key :=
   match s with
-  | SInt n => KSeed n [] 0
+  | SInt n => KSeed n [] rep
   | SGen r p o => KSeed r p (o + rep)
   | SNone => KAmbient rep
   end.
@@ -46,21 +55,25 @@ Definition single_key (s : seedarg) (rep : nat) : key :=
 Definition single_keys (arg : seedarg) (seed_data : option Z) (n_rep : nat) : list key :=
   map (single_key (resolve_seed arg seed_data)) (seq 0 n_rep).
 
-(* PROPOSED REPAIR (findings/C15-1.md): to_stream is applied ONCE before the loop, the resulting generator is threaded *)
-Definition single_key_fixed (s : seedarg) (rep : nat) : key :=
+(* AS CODED BEFORE fix c15-execute-simulation-int-seed-stream: the int itself was handed to every repetition and
+   to_stream turned it into a fresh generator in EVERY repetition *)
+Definition single_key_before_fix (s : seedarg) (rep : nat) : key :=
   match s with
-  | SInt n => KSeed n [] rep
+  | SInt n => KSeed n [] 0
   | SGen r p o => KSeed r p (o + rep)
   | SNone => KAmbient rep
   end.
-Definition single_keys_fixed (arg : seedarg) (seed_data : option Z) (n_rep : nat) : list key :=
-  map (single_key_fixed (resolve_seed arg seed_data)) (seq 0 n_rep).
+Definition single_keys_before_fix (arg : seedarg) (seed_data : option Z) (n_rep : nat) : list key :=
+  map (single_key_before_fix (resolve_seed arg seed_data)) (seq 0 n_rep).
 
 Section Single.
 Context {Data Est : Type} (gen_data : key -> Data) (estimate : Data -> Est).
 (* SimulationResult.empi_dists_sequences / estimation_results, index = repetition *)
 Definition single_run (arg : seedarg) (seed_data : option Z) (n_rep : nat) : list (Data * Est) :=
   map (fun k => (gen_data k, estimate (gen_data k))) (single_keys arg seed_data n_rep).
+(* as coded before fix c15-execute-simulation-int-seed-stream *)
+Definition single_run_before_fix (arg : seedarg) (seed_data : option Z) (n_rep : nat) : list (Data * Est) :=
+  map (fun k => (gen_data k, estimate (gen_data k))) (single_keys_before_fix arg seed_data n_rep).
 End Single.
 
 (* ------------------------------------------------------------------ SeedSequence.spawn *)
@@ -89,17 +102,19 @@ Definition covers (n : nat) (order : list nat) : Prop := forall i, (i < n)%nat -
 End Par.
 
 (* ------------------------------------------------------------------ tasks that share a mutable object *)
-(* execute_estimation hands the SAME loss / algo objects to every repetition's task; a task first loads its data into
-   the loss object (loss.set_from_standard_qtomography_option_data) and then optimises over it (algo.optimize).
-   With process workers every task works on its own pickled copy; with joblib's threading backend (which joblib
-   selects for a Parallel call nested inside a worker process) the object is shared. *)
+(* a repetition's estimation task first loads its data into the loss object it was handed
+   (loss.set_from_standard_qtomography_option_data) and then optimises over it (algo.optimize).
+   execute_estimation hands every task its OWN deep copy of estimator / loss / algo: [run_private].
+   AS CODED BEFORE fix c15-execute-estimation-private-copies every task received the SAME objects: with process
+   workers every task still worked on its own pickled copy, but with joblib's threading backend (which joblib
+   selects for a Parallel call nested inside a worker process) the object was shared: [run_shared_before_fix_before_fix]. *)
 Inductive step := SetData (t : nat) | Optimize (t : nat).
 (* the register holds the index of the task whose data the loss object currently carries *)
-Fixpoint run_shared (reg : option nat) (sched : list step) : list (nat * option nat) :=
+Fixpoint run_shared_before_fix (reg : option nat) (sched : list step) : list (nat * option nat) :=
   match sched with
   | [] => []
-  | SetData t :: r => run_shared (Some t) r
-  | Optimize t :: r => (t, reg) :: run_shared reg r
+  | SetData t :: r => run_shared_before_fix (Some t) r
+  | Optimize t :: r => (t, reg) :: run_shared_before_fix reg r
   end.
 Fixpoint run_private (regs : nat -> option nat) (sched : list step) : list (nat * option nat) :=
   match sched with
@@ -125,8 +140,18 @@ Inductive genkey := GKey (k : key) | GNoRandom | GTypeError.
 
 Definition count_true (l : list bool) : nat := length (filter (fun b => b) l).
 
-(* object 0 is the true object, object j+1 is tester j.  [amb] = position of the ambient stream when the sample starts. *)
-Definition qop_key (c : flowcfg) (amb : nat) (s j : nat) : genkey :=
+(* object 0 is the true object, object j+1 is tester j.  The sample's stream is handed to exactly those settings whose
+   generate takes it, in the order true object, tester 0, tester 1, ... *)
+Definition seeded_at (c : flowcfg) (j : nat) : bool :=
+  match j with O => f_true_seeded c | S t => nth t (f_tester_seeded c) false end.
+Definition qop_key (c : flowcfg) (s j : nat) : genkey :=
+  if seeded_at c j
+  then GKey (KSeed (f_seed_qop c) [s] (count_true (map (seeded_at c) (seq 0 j))))
+  else GNoRandom.
+
+(* AS CODED BEFORE fix c15-flow-generation-stream-per-setting: whether the stream is passed was decided ONCE, from the
+   true object's setting.  [amb] = position of the process-global stream when the sample starts. *)
+Definition qop_key_before_fix (c : flowcfg) (amb : nat) (s j : nat) : genkey :=
   if f_true_seeded c then
     match j with
     | O => GKey (KSeed (f_seed_qop c) [s] 0)
@@ -140,19 +165,11 @@ Definition qop_key (c : flowcfg) (amb : nat) (s j : nat) : genkey :=
              then GKey (KAmbient (amb + count_true (firstn t (f_tester_seeded c))))   (* generate() called WITHOUT the stream *)
              else GNoRandom
     end.
-(* PROPOSED REPAIR (findings/C15-2.md): the stream is handed to exactly those settings whose generate takes it *)
-Definition seeded_at (c : flowcfg) (j : nat) : bool :=
-  match j with O => f_true_seeded c | S t => nth t (f_tester_seeded c) false end.
-Definition qop_key_fixed (c : flowcfg) (s j : nat) : genkey :=
-  if seeded_at c j
-  then GKey (KSeed (f_seed_qop c) [s] (count_true (map (seeded_at c) (seq 0 j))))
-  else GNoRandom.
+Definition flow_raises_before_fix (c : flowcfg) : bool := f_true_seeded c && negb (forallb (fun b => b) (f_tester_seeded c)).
+Definition ambient_free_before_fix (c : flowcfg) : bool := f_true_seeded c || negb (existsb (fun b => b) (f_tester_seeded c)).
 
 (* SeedSequence(seed_data).spawn(n_rep) is rebuilt in every sample unit: the key does not depend on the sample *)
 Definition data_key (c : flowcfg) (r : nat) : key := KSeed (f_seed_data c) [r] 0.
-
-Definition flow_raises (c : flowcfg) : bool := f_true_seeded c && negb (forallb (fun b => b) (f_tester_seeded c)).
-Definition ambient_free (c : flowcfg) : bool := f_true_seeded c || negb (existsb (fun b => b) (f_tester_seeded c)).
 
 Section FlowExec.
 Context {Obj Data Est : Type} (dObj : Obj) (dData : Data) (dEst : Est).
@@ -174,29 +191,29 @@ Definition orders_cover (c : flowcfg) (o : orders) : Prop :=
 Record sample_res := { r_true : Obj; r_testers : list Obj; r_data : list Data; r_est : list (list Est) }.
 Definition d_sample : sample_res := {| r_true := dObj; r_testers := []; r_data := []; r_est := [] |}.
 
-Definition sample_true (c : flowcfg) (amb : nat -> nat) (s : nat) : Obj := gen_obj 0 (qop_key c (amb s) s 0).
-Definition sample_testers (c : flowcfg) (amb : nat -> nat) (s : nat) : list Obj :=
-  map (fun j => gen_obj j (qop_key c (amb s) s j)) (seq 1 (length (f_tester_seeded c))).
+Definition sample_true (c : flowcfg) (s : nat) : Obj := gen_obj 0 (qop_key c s 0).
+Definition sample_testers (c : flowcfg) (s : nat) : list Obj :=
+  map (fun j => gen_obj j (qop_key c s j)) (seq 1 (length (f_tester_seeded c))).
 
 Definition case_unit (c : flowcfg) (o : orders) (s : nat) (tr : Obj) (te : list Obj) (datas : list Data) (k : nat) : list Est :=
   par_exec dEst (f_n_rep c) (o_est o s k) (fun r => estimate k tr te (nth r datas dData)).
-Definition sample_unit (c : flowcfg) (o : orders) (amb : nat -> nat) (s : nat) : sample_res :=
-  let tr := sample_true c amb s in
-  let te := sample_testers c amb s in
+Definition sample_unit (c : flowcfg) (o : orders) (s : nat) : sample_res :=
+  let tr := sample_true c s in
+  let te := sample_testers c s in
   let datas := par_exec dData (f_n_rep c) (o_data o s) (fun r => gen_data tr te (data_key c r)) in
   {| r_true := tr; r_testers := te; r_data := datas;
      r_est := par_exec [] (f_n_case c) (o_case o s) (case_unit c o s tr te datas) |}.
-Definition flow_exec (c : flowcfg) (o : orders) (amb : nat -> nat) : list sample_res :=
-  par_exec d_sample (f_n_sample c) (o_sample o) (sample_unit c o amb).
+Definition flow_exec (c : flowcfg) (o : orders) : list sample_res :=
+  par_exec d_sample (f_n_sample c) (o_sample o) (sample_unit c o).
 
 (* the result map, written directly *)
-Definition flow_data (c : flowcfg) (amb : nat -> nat) (s r : nat) : Data :=
-  gen_data (sample_true c amb s) (sample_testers c amb s) (data_key c r).
-Definition flow_est (c : flowcfg) (amb : nat -> nat) (s k r : nat) : Est :=
-  estimate k (sample_true c amb s) (sample_testers c amb s) (flow_data c amb s r).
-Definition flow_spec (c : flowcfg) (amb : nat -> nat) : list sample_res :=
-  map (fun s => {| r_true := sample_true c amb s; r_testers := sample_testers c amb s;
-                   r_data := map (flow_data c amb s) (seq 0 (f_n_rep c));
-                   r_est := map (fun k => map (flow_est c amb s k) (seq 0 (f_n_rep c))) (seq 0 (f_n_case c)) |})
+Definition flow_data (c : flowcfg) (s r : nat) : Data :=
+  gen_data (sample_true c s) (sample_testers c s) (data_key c r).
+Definition flow_est (c : flowcfg) (s k r : nat) : Est :=
+  estimate k (sample_true c s) (sample_testers c s) (flow_data c s r).
+Definition flow_spec (c : flowcfg) : list sample_res :=
+  map (fun s => {| r_true := sample_true c s; r_testers := sample_testers c s;
+                   r_data := map (flow_data c s) (seq 0 (f_n_rep c));
+                   r_est := map (fun k => map (flow_est c s k) (seq 0 (f_n_rep c))) (seq 0 (f_n_case c)) |})
       (seq 0 (f_n_sample c)).
 End FlowExec.
